@@ -86,13 +86,19 @@ impl Oracle for C07 {
                 // text after the directive in the output: skip whitespace, '#', at most one added
                 // optional delimiter and the whitespace after it
                 let rest = trim_line_ends(&out[b.comment_end..]);
-                let skip_ws = |s: &str| s.trim_start_matches(|c: char| c.is_whitespace() || c == '#').to_string();
-                let r0 = skip_ws(&rest);
-                let mut ok = r0.starts_with(&want);
-                if !ok {
+                let skip_blank = |s: &str| s.trim_start_matches(|c: char| c.is_whitespace()).to_string();
+                // the payload itself may start with '#' (a Math body such as `#g(a)`), so try both
+                let r_plain = skip_blank(&rest);
+                let r_hash = skip_blank(r_plain.trim_start_matches('#'));
+                let r0 = r_plain.clone();
+                let mut ok = false;
+                for r in [&r_plain, &r_hash] {
+                    if r.starts_with(&want) {
+                        ok = true;
+                    }
                     for d in ['(', '{'] {
-                        if let Some(r1) = r0.strip_prefix(d) {
-                            if skip_ws(r1).starts_with(&want) {
+                        if let Some(r1) = r.strip_prefix(d) {
+                            if skip_blank(r1).starts_with(&want) {
                                 ok = true;
                             }
                         }
